@@ -1,7 +1,11 @@
 import Mathlib.Data.Set.Function
 import Mathlib.Algebra.BigOperators.Group.List.Lemmas
+import Mathlib.Data.List.Perm.Subperm
+import Mathlib.Data.List.Dedup
 import BronVerif.Lemmas.RouterProv
 import BronVerif.Lemmas.RouterToken
+import BronVerif.Lemmas.RouterFirst
+import BronVerif.Lemmas.RouterBoxes
 import BronVerif.Model.Echo
 /-!
 # C11 — message routing is exact under every delivery order; broadcast is consistent
@@ -43,7 +47,7 @@ theorem mem_collected {s : State C P} {cid : C} {exp : List Nat} {id : Nat} {p :
     obtain ⟨rfl, rfl⟩ := hm
     exact ⟨hi, hg⟩
 
-/-- **Full statement** (kept for reference): under the one-exchange hypothesis of the property
+/-- **Full statement**, proved below as `recv_exact`: under the one-exchange hypothesis of the property
 ("each correlation identifier is used for one exchange": no earlier receive on `cid` collected),
 a completed receive returns for every requested sender the *first* payload that sender delivered
 under exactly `cid`. -/
@@ -63,8 +67,7 @@ of the quorum, delivered under exactly this correlation ID `cid` — never one d
 another ID or namespace (namespaces are prefixes of the ID, see `namespace_disjoint`), never one
 from a non-member — and it is the payload stored for `(cid, id)`, which `stored_is_stable` shows
 unchanged since it was first deposited.
-Not proved here: that it is the *first* such delivery of the trace (`recv_exact_statement`); that
-part is checked on every harness trace by the driver oracle `not-first-payload`. -/
+That it is the *first* such delivery of the trace is `recv_exact` below. -/
 theorem recv_exact_partial (cfg : Config) (tr : List (Step C P)) (cid : C) (m : List (Nat × P))
     (hscan : (step cfg (run cfg tr (init : State C P)) (.scan cid)).log
       = (cid, .complete m) :: (run cfg tr (init : State C P)).log) :
@@ -90,6 +93,66 @@ theorem recv_exact_partial (cfg : Config) (tr : List (Step C P)) (cid : C) (m : 
     have := mem_collected hm
     have hp := hprov.1 cid id p (mem_of_lookupE this.2)
     exact ⟨hp.1, hp.2, this.2⟩
+
+/-- **recv_exact**, full strength.  After *any* step sequence `tr` (every interleaving of reader,
+receivers, cancellations, failures and `Close`), if no earlier receive on `cid` has collected
+("each correlation identifier is used for one exchange") and the locked scan of the receive
+attached to `cid` completes with the map `m`, then `m` has exactly one entry per requested sender
+and the entry of sender `id` is the **first** payload that `id`, as a member of the quorum,
+deposited under exactly `cid` in `tr` — whatever else arrived before, between or after it:
+identical or conflicting retransmissions, traffic on other IDs and namespaces, non-members. -/
+theorem recv_exact : recv_exact_statement := by
+  intro C P _ _ cfg tr cid m s hnc hscan
+  have hfirst : FirstInv cfg tr s := first_run cfg tr
+  simp only [step] at hscan
+  rcases scan_cases s cid with ⟨_, _, _, hl | ⟨r, hr, hl⟩⟩ | ⟨w, hw, _, _, hc, _, _, hl⟩
+  · rw [hl] at hscan
+    have := congrArg List.length hscan
+    simp at this
+  · rw [hl] at hscan
+    simp only [List.cons.injEq, Prod.mk.injEq, true_and, and_true] at hscan
+    exact absurd hscan (hr m)
+  · rw [hl] at hscan
+    simp only [List.cons.injEq, Prod.mk.injEq, true_and, and_true, Result.complete.injEq] at hscan
+    subst hscan
+    have hall : ∀ id ∈ w.exp, (get s cid id).isSome = true := by
+      simpa [isComplete, List.all_eq_true] using hc
+    refine ⟨w, hw, collected_fst _ hall, ?_⟩
+    intro id hid
+    rw [lookupE_collected s cid id w.exp hid]
+    cases hg : get s cid id with
+    | none => have := hall id hid; simp [hg] at this
+    | some p => exact ((hfirst cid id hnc).1 p hg).symm
+
+/-- the general form without the one-exchange hypothesis: the entry of sender `id` is the first
+payload `id` deposited under exactly `cid` **since the last completed collection** of `(cid, id)`
+(`firstSince` threads that ghost along the run) -/
+theorem recv_exact_since (cfg : Config) (tr : List (Step C P)) (cid : C) (m : List (Nat × P))
+    (hscan : (step cfg (run cfg tr (init : State C P)) (.scan cid)).log
+      = (cid, .complete m) :: (run cfg tr (init : State C P)).log) :
+    ∃ w, (run cfg tr (init : State C P)).waiter cid = some w ∧ m.map Prod.fst = w.exp ∧
+      ∀ id ∈ w.exp, lookupE id m = firstSince cfg tr cid id ∧ (lookupE id m).isSome = true := by
+  have hsince := since_run cfg tr
+  generalize run cfg tr (init : State C P) = s at *
+  simp only [step] at hscan
+  rcases scan_cases s cid with ⟨_, _, _, hl | ⟨r, hr, hl⟩⟩ | ⟨w, hw, _, _, hc, _, _, hl⟩
+  · rw [hl] at hscan
+    have := congrArg List.length hscan
+    simp at this
+  · rw [hl] at hscan
+    simp only [List.cons.injEq, Prod.mk.injEq, true_and, and_true] at hscan
+    exact absurd hscan (hr m)
+  · rw [hl] at hscan
+    simp only [List.cons.injEq, Prod.mk.injEq, true_and, and_true, Result.complete.injEq] at hscan
+    subst hscan
+    have hall : ∀ id ∈ w.exp, (get s cid id).isSome = true := by
+      simpa [isComplete, List.all_eq_true] using hc
+    refine ⟨w, hw, collected_fst _ hall, ?_⟩
+    intro id hid
+    rw [lookupE_collected s cid id w.exp hid]
+    cases hg : get s cid id with
+    | none => have := hall id hid; simp [hg] at this
+    | some p => exact ⟨((hsince cid id).1 p hg).symm, rfl⟩
 
 /-- a stored payload is never overwritten or dropped by anything except the collecting scan of its
 own correlation ID: in particular not by retransmissions, by traffic or receives on other
@@ -241,6 +304,129 @@ theorem deposit_stores (cfg : Config) (s : State C P) (id : Nat) (cid : C) (p : 
   have hb' : ¬ cfg.bound ≤ s.buffered := by omega
   simp only [step, deposit, hst, hm, hg, hb', if_true, if_false, Bool.false_eq_true]
   exact ⟨by simp [Router.get, (signal_fields _ cid).1, lookupE], by simp [(signal_fields _ cid).2.2.2.2.2]⟩
+
+/-- **dup_does_not_consume_budget**: a retransmission (identical *or* conflicting) of a message that
+is still in its mailbox leaves the buffer budget and the stored payloads untouched -/
+theorem dup_does_not_consume_budget (cfg : Config) (s : State C P) (id : Nat) (cid : C) (p q : P)
+    (h : get s cid id = some q) :
+    (step cfg s (.deliver id cid p)).buffered = s.buffered ∧ (step cfg s (.deliver id cid p)).entries = s.entries := by
+  simp only [step]
+  rcases deposit_cases cfg s id cid p with ⟨he, _, hb, _⟩ | ⟨hn, _⟩ | ⟨hn, _⟩
+  · exact ⟨hb, he⟩
+  · rw [hn] at h; cases h
+  · rw [hn] at h; cases h
+
+/-- the `(cid, sender)` keys under which members delivered anything in the trace -/
+def memberKeys (cfg : Config) (tr : List (Step C P)) : List (C × Nat) :=
+  tr.filterMap fun
+    | .deliver id cid _ => if id ∈ cfg.members then some (cid, id) else none
+    | _ => none
+
+/-- over the whole life of a router the budget in use is at most the number of *distinct*
+(correlation ID, member) pairs that ever delivered: no number of retransmissions, messages of
+non-members, cancellations or failed receives can use it up -/
+theorem budget_le_distinct_keys (cfg : Config) (tr : List (Step C P)) :
+    (run cfg tr (init : State C P)).buffered ≤ (memberKeys cfg tr).dedup.length := by
+  have hacc := acc_run (C := C) (P := P) cfg tr
+  have hprov := prov_run cfg tr
+  rw [hacc.len, ← List.length_map (f := Prod.fst)]
+  apply List.Subperm.length_le
+  apply hacc.nodup.subperm
+  intro k hk
+  obtain ⟨e, he, rfl⟩ := List.mem_map.mp hk
+  obtain ⟨⟨cid, id⟩, p⟩ := e
+  have := hprov.1 cid id p he
+  apply List.mem_dedup.mpr
+  simp only [memberKeys, List.mem_filterMap]
+  exact ⟨_, this.1, by simp [this.2]⟩
+
+/-- progress: after *any* step sequence, a receive that is attached (parked or about to scan),
+whose mailbox is not poisoned and holds a payload of every requested sender, completes in its next
+scheduled steps — directly, or after consuming the wake-up token, which is then guaranteed to be
+pending (`no_lost_wakeup`) -/
+theorem progress_complete (cfg : Config) (tr : List (Step C P)) (cid : C) (w : Waiter) :
+    let s := run cfg tr (init : State C P)
+    s.waiter cid = some w → (w.phase = .parked ∨ w.phase = .running) → s.poison cid = none →
+    (∀ id ∈ w.exp, (get s cid id).isSome = true) →
+    ∃ pre, (pre = [] ∨ pre = [Step.wakeToken cid]) ∧
+      (run cfg (pre ++ [.scan cid]) s).log = (cid, .complete (collected s cid w.exp)) :: s.log := by
+  intro s hw hph hpo hall
+  have htok : TokInv s := tok_run cfg tr
+  have hc : isComplete s cid w.exp = true := by simpa [isComplete, List.all_eq_true] using hall
+  rcases hph with hph | hph
+  · have ht : w.token = true := by
+      cases ht : w.token with
+      | true => rfl
+      | false => have := (htok cid w hw hph ht).2; rw [hc] at this; cases this
+    refine ⟨[.wakeToken cid], Or.inr rfl, ?_⟩
+    simp only [run, List.cons_append, List.nil_append, List.foldl_cons, List.foldl_nil, step, wake, hw, hph, ht,
+      and_self, if_true]
+    have hc' : isComplete ({ s with waiter := upd s.waiter cid (some { w with phase := .running, token := false }) } : State C P)
+        cid w.exp = true := by rw [← hc]; exact isComplete_congr _ (by intro id; rfl)
+    simp [scan, hpo, hc', finish, collected, Router.get]
+  · refine ⟨[], Or.inl rfl, ?_⟩
+    simp [run, step, scan, hw, hph, hpo, hc, finish]
+
+/-- **progress_below_bound**: the last missing message of an attached receive arrives while the
+reader is alive and fewer than `bound` messages are outstanding.  Then it is stored (not dropped,
+the reader does not fail), and the receive completes in its next scheduled steps with exactly one
+entry per requested sender, the new payload among them.  So a receive never fails or hangs while
+its messages are deliverable and fewer undelivered messages are outstanding than the bound. -/
+theorem progress_below_bound (cfg : Config) (tr : List (Step C P)) (cid : C) (w : Waiter) (id : Nat) (p : P) :
+    let s := run cfg tr (init : State C P)
+    s.waiter cid = some w → (w.phase = .parked ∨ w.phase = .running) → s.poison cid = none →
+    s.stopped = false → s.buffered < cfg.bound → id ∈ cfg.members → get s cid id = none →
+    (∀ j ∈ w.exp, j ≠ id → (get s cid j).isSome = true) →
+    ∃ pre m, (pre = [] ∨ pre = [Step.wakeToken cid]) ∧
+      (run cfg (pre ++ [.scan cid]) (step cfg s (.deliver id cid p))).log = (cid, .complete m) :: s.log ∧
+      m.map Prod.fst = w.exp ∧ (id ∈ w.exp → lookupE id m = some p) ∧
+      (step cfg s (.deliver id cid p)).fatal = s.fatal := by
+  intro s hw hph hpo hst hb hm hg hrest
+  have hstore := deposit_stores cfg s id cid p hst hm hg hb
+  have hs1 : step cfg s (.deliver id cid p) = run cfg (tr ++ [.deliver id cid p]) (init : State C P) :=
+    (run_snoc cfg tr _ _).symm
+  -- the state after the deposit
+  have hlog : (step cfg s (.deliver id cid p)).log = s.log := by
+    rcases deposit_cases cfg s id cid p with h | h | h
+    · exact h.2.2.2.1
+    · exact h.2.2.2.2.2.2
+    · exact h.2.2.2.2.2.2.2
+  have hpo1 : (step cfg s (.deliver id cid p)).poison cid = none := by
+    have hb' : ¬ cfg.bound ≤ s.buffered := by omega
+    simp only [step, deposit, hst, hm, hg, hb', if_true, if_false, Bool.false_eq_true]
+    rw [(signal_fields _ cid).2.1]; exact hpo
+  have hw1 : (step cfg s (.deliver id cid p)).waiter cid = some { w with token := true } := by
+    have hb' : ¬ cfg.bound ≤ s.buffered := by omega
+    simp only [step, deposit, hst, hm, hg, hb', if_true, if_false, Bool.false_eq_true]
+    rw [signal_waiter]; simp [hw]
+  have hall1 : ∀ j ∈ ({ w with token := true } : Waiter).exp,
+      (get (step cfg s (.deliver id cid p)) cid j).isSome = true := by
+    intro j hj
+    by_cases hji : j = id
+    · subst hji; rw [hstore.1]; rfl
+    · have := hrest j hj hji
+      cases hgj : get s cid j with
+      | none => simp [hgj] at this
+      | some q => rw [stored_is_stable cfg s cid j q _ (by intro e; cases e) hgj]; rfl
+  have hprog := progress_complete cfg (tr ++ [.deliver id cid p]) cid { w with token := true }
+  simp only [← hs1] at hprog
+  obtain ⟨pre, hpre, hl⟩ := hprog hw1 hph hpo1 hall1
+  refine ⟨pre, _, hpre, by rw [hl, hlog], collected_fst _ hall1, ?_, hstore.2⟩
+  intro hid
+  rw [lookupE_collected _ cid id _ hid, hstore.1]
+
+/-- **no_mailbox_leak**: after *any* step sequence the key set of the Go map `boxes` (tracked by
+`boxesStep`, which mirrors `boxFor` and the `delete` of the deferred section) has no repetitions,
+contains every correlation ID whose mailbox is in use (holds a payload, is poisoned, or has a
+receive attached), and — while the reader is alive — nothing else: completed, cancelled and failed
+receives leave no mailbox object behind, so `len(boxes)` is bounded by the undelivered messages,
+the poisoned IDs and the attached receives. -/
+theorem no_mailbox_leak (cfg : Config) (tr : List (Step C P)) :
+    let sb := runBoxes cfg tr ((init : State C P), ([] : List C))
+    sb.1 = run cfg tr (init : State C P) ∧ sb.2.Nodup ∧ (∀ cid, inUse sb.1 cid → cid ∈ sb.2) ∧
+    (sb.1.stopped = false → ∀ cid ∈ sb.2, inUse sb.1 cid) := by
+  have h := box_run (C := C) (P := P) cfg tr
+  exact ⟨runBoxes_fst cfg tr _, h.nodup, h.live, h.noleak⟩
 
 /-! ## no lost wake-up -/
 
@@ -416,6 +602,60 @@ def exTrace2 : List (Step Nat Nat) :=
 
 example : (step exCfg (run exCfg exTrace2 (init : State Nat Nat)) (.scan 7)).log
     = (7, .complete [(2, 10), (3, 20)]) :: (run exCfg exTrace2 (init : State Nat Nat)).log := by decide
+
+/-- `recv_exact` on that history: no earlier collection on ID 7, and the payloads returned are the
+first deposits of senders 2 and 3 under ID 7 -/
+example : noCollect (run exCfg exTrace2 (init : State Nat Nat)) 7 := by
+  have h : (run exCfg exTrace2 (init : State Nat Nat)).log = [] := by decide
+  intro m hm; rw [h] at hm; cases hm
+example : firstDeposit exCfg exTrace2 7 2 = some 10 ∧ firstDeposit exCfg exTrace2 7 3 = some 20 := by decide
+
+/-- `recv_exact_since`: the ID is used a second time after a completed collection; the second
+receive returns the first payload deposited *since* (11), not the first of the trace (10) -/
+def exTraceReuse : List (Step Nat Nat) :=
+  [.deliver 2 7 10, .attach 7 [2], .scan 7, .detach 7, .deliver 2 7 11, .deliver 2 7 11, .attach 7 [2]]
+
+example : (step exCfg (run exCfg exTraceReuse (init : State Nat Nat)) (.scan 7)).log
+    = (7, .complete [(2, 11)]) :: (run exCfg exTraceReuse (init : State Nat Nat)).log := by decide
+example : firstSince exCfg exTraceReuse 7 2 = some 11 ∧ firstDeposit exCfg exTraceReuse 7 2 = some 10 := by decide
+
+/-- `dup_does_not_consume_budget` / `budget_le_distinct_keys`: five copies (one of them conflicting)
+of one message use one unit of the budget -/
+def exTraceDups : List (Step Nat Nat) :=
+  [.deliver 2 7 10, .deliver 2 7 10, .deliver 2 7 10, .deliver 9 7 10, .deliver 2 7 11, .deliver 2 7 10]
+
+example : get (run exCfg exTraceDups (init : State Nat Nat)) 7 2 = some 10 := by decide
+example : (run exCfg exTraceDups (init : State Nat Nat)).buffered = 1 ∧
+    (memberKeys exCfg exTraceDups).dedup.length = 1 := by decide
+example : (step exCfg (run exCfg exTraceDups (init : State Nat Nat)) (.deliver 2 7 10)).buffered = 1 :=
+  (dup_does_not_consume_budget exCfg _ 2 7 10 10 (by decide)).1.trans (by decide)
+
+/-- `progress_below_bound`: receive parked on {2,3}, 3 has arrived, one of four slots in use; the
+message of 2 arrives: all hypotheses hold, and waking + scanning completes with both payloads -/
+def exTraceParked : List (Step Nat Nat) := [.attach 7 [2, 3], .scan 7, .deliver 3 7 20, .wakeToken 7, .scan 7]
+
+example : ∃ pre m, (pre = [] ∨ pre = [Step.wakeToken 7]) ∧
+    (run exCfg (pre ++ [.scan 7]) (step exCfg (run exCfg exTraceParked (init : State Nat Nat)) (.deliver 2 7 10))).log
+      = (7, .complete m) :: (run exCfg exTraceParked (init : State Nat Nat)).log ∧
+    m.map Prod.fst = [2, 3] ∧ (2 ∈ [2, 3] → lookupE 2 m = some 10) ∧
+    (step exCfg (run exCfg exTraceParked (init : State Nat Nat)) (.deliver 2 7 10)).fatal
+      = (run exCfg exTraceParked (init : State Nat Nat)).fatal :=
+  progress_below_bound exCfg exTraceParked 7 ⟨[2, 3], false, .parked, false⟩ 2 10
+    (by decide) (Or.inl rfl) (by decide) (by decide) (by decide) (by decide) (by decide) (by decide)
+example : (run exCfg (exTraceParked ++ [.deliver 2 7 10, .wakeToken 7, .scan 7]) (init : State Nat Nat)).log
+    = [(7, .complete [(2, 10), (3, 20)])] := by decide
+
+/-- `progress_complete` with the token pending: the parked receive of `exTraceParked` after the
+deposit of 2 -/
+example : ((run exCfg (exTraceParked ++ [.deliver 2 7 10]) (init : State Nat Nat)).waiter 7).map
+    (fun w => (w.phase, w.token)) = some (.parked, true) := by decide
+
+/-- `no_mailbox_leak`: the mailbox of ID 7 exists while its message is undelivered and is gone after
+the collecting receive has detached; a cancelled receive on an empty mailbox leaves nothing -/
+example : (runBoxes exCfg [.deliver 2 7 10, .deliver 2 7 10] ((init : State Nat Nat), [])).2 = [7] := by decide
+example : (runBoxes exCfg [.deliver 2 7 10, .attach 7 [2], .scan 7, .detach 7] ((init : State Nat Nat), [])).2 = [] := by decide
+example : (runBoxes exCfg [.attach 8 [2], .scan 8, .cancel 8, .wakeCtx 8, .scan 8, .detach 8] ((init : State Nat Nat), [])).2 = [] := by
+  decide
 
 /-- a parked receive whose context is cancelled: the hypotheses of `no_lost_wakeup` and
 `cancel_loses_nothing` are satisfiable, and the payload survives -/
